@@ -325,8 +325,14 @@ func GenTypes(t *rapid.T, o *Opts) *Spec {
 	rootName := pkgNames[rapid.IntRange(0, len(pkgNames)-1).Draw(t, "rootPkg")]
 	module := Module
 	root := &Pkg{Name: rootName, Path: module + "/" + rootName}
+	subAtModuleRoot := false
 	if o.ShortModule {
-		switch rapid.IntRange(0, 5).Draw(t, "moduleForm") {
+		switch rapid.IntRange(0, 6).Draw(t, "moduleForm") {
+		case 3:
+			// a two-element module whose own root package is imported by the analysed sub-package
+			module = "verif.test/shopmod"
+			root = &Pkg{Name: rootName, Path: module + "/" + rootName, Mod: module}
+			subAtModuleRoot = o.SubPkgs
 		case 0:
 			// the analysed package is the root of a two-element module
 			module = "verif.test/" + rootName
@@ -354,6 +360,12 @@ func GenTypes(t *rapid.T, o *Opts) *Spec {
 			maxSub = 4
 		}
 		nSub := rapid.IntRange(0, maxSub).Draw(t, "nSub")
+		if subAtModuleRoot {
+			sp := &Pkg{Name: "shopmod", Path: module, Files: []*File{{Name: "shopmod.go"}}, Mod: module}
+			g.spec.Pkgs = append(g.spec.Pkgs, sp)
+			g.fillPackage(sp, sp.Files[0], sp.Files[0], rapid.IntRange(2, 4).Draw(t, "nModRootDecls"), false)
+			o.class("pkg:imports_the_module_root_package")
+		}
 		for i := 0; i < nSub; i++ {
 			sn := subNames[rapid.IntRange(0, len(subNames)-1).Draw(t, "subName")]
 			if o.Spelling && rapid.IntRange(0, 3).Draw(t, "shortPkg") == 0 {
